@@ -59,6 +59,34 @@ class SymTraj:
             a += [symrot.norm2(q) == 1 for q in self.q]
         return a
 
+    def pin(self, seed=0, only_quat=False):
+        """equalities fixing every input to a generic rational value that meets
+        the assumptions (for cheap reachability witnesses)"""
+        import random
+        rng = random.Random("%s/%d" % (self.prefix, seed))
+        quads = [(1, 1, 1, 1, 2), (1, 2, 2, 4, 5), (1, 1, 3, 5, 6), (1, 3, 3, 9, 10), (2, 4, 5, 6, 9),
+                 (1, 4, 4, 4, 7), (3, 1, 1, 5, 6), (2, 3, 6, 0, 7), (4, 4, 7, 0, 9), (1, 2, 2, 0, 3)]
+        out = []
+        t = Fraction(rng.randint(0, 5))
+        for i in range(self.n):
+            if self.t is not None:
+                t += Fraction(rng.randint(1, 9), 8)
+                if not only_quat:
+                    out.append(self.t[i] == sc.q_of(t))
+            for v in self.p[i]:
+                pv = sc.q_of(Fraction(rng.randint(-40, 40), 8))
+                if not only_quat:
+                    out.append(v == pv)
+            q = list(quads[rng.randrange(len(quads))])
+            d = q.pop()
+            rng.shuffle(q)
+            q = [x * rng.choice((1, -1)) for x in q]
+            if not self.unit_quat:
+                d = 1
+            for v, x in zip(self.q[i], q):
+                out.append(v == sc.q_of(Fraction(x, d)))
+        return out
+
     # facade-side objects ---------------------------------------------------
     def arrays(self):
         xyz = symnp.array([[SymReal(v) for v in row] for row in self.p])
@@ -159,3 +187,14 @@ def band(x, scale=1.0):
 
 def fr(vals):
     return {k: (Fraction(v) if not isinstance(v, (bool, str)) else v) for k, v in vals.items()}
+
+
+def pins_for(*trajs, n=2):
+    """pin sets for cheap reachability witnesses: everything pinned, then only the
+    quaternions (positions/stamps/thresholds stay free)"""
+    out = []
+    for k in range(n):
+        out.append([e for t in trajs for e in t.pin(k)])
+    for k in range(n):
+        out.append([e for t in trajs for e in t.pin(k, only_quat=True)])
+    return out
